@@ -24,11 +24,13 @@ The oracle is the property's own predicate on the implementation (never the mode
 from __future__ import annotations
 
 import math
+import os
 import sys
 from fractions import Fraction
 
 import numpy as np
 
+import common
 from common import F, Rng, digest, err_class, rs
 
 import warnings
@@ -53,6 +55,35 @@ PARTIAL = [
     "line-level fault injection (sys.settrace) is oracle-only: no model prediction of the intermediate noisy/sparse attributes",
 ]
 EXHAUSTIVE = {"quick": False, "thorough": False}
+TRUSTED_EXTRA = [
+    "harness/c20_translate.py: syntax-only, statement-by-statement translation of Simulation.add_noise / sparsify / add_noise_and_sparsify and of "
+    "the formulas of _add_noise_univariate_data / _sparsify_univariate_data into lean/FDAModel/Generated/SimBodies.lean "
+    "(statement language lean/FDAModel/Core/PySim.lean); C20.generated_*_eq_model re-prove on every run that the bodies are the model's operations",
+]
+GEN_SIMBODIES = os.path.join(common.LEAN_DIR, "FDAModel", "Generated", "SimBodies.lean")
+TRANSLATOR = {"note": None}
+
+
+def translate():
+    """Regenerate Generated/SimBodies.lean from the method bodies as they are now.  An unrecognised shape is NOT an
+    alarm: the reference translation kept beside the translator is used and the evidence says that the tie rests on the
+    correspondence only."""
+    import c20_translate
+
+    try:
+        src = c20_translate.lean_source(common.REPO)
+        TRANSLATOR["note"] = ("translator: bodies of add_noise / sparsify / add_noise_and_sparsify and the noise / sparsification formulas regenerated from "
+                              "the source and re-proved equal to the model (C20.generated_add_noise_eq_model / _sparsify_ / _combined_, generated_noise_formula, "
+                              "generated_sparsify_formulas)")
+    except (ValueError, SyntaxError, IndexError, AttributeError, KeyError, TypeError) as e:
+        TRANSLATOR["note"] = f"translator: shape of simulation.py not recognised, tie rests on the correspondence only ({str(e)[:160]})"
+        print("note:", TRANSLATOR["note"])
+        src = open(os.path.join(os.path.dirname(os.path.abspath(__file__)), "c20_simbodies_reference.lean")).read()
+    except OSError as e:
+        raise common.InfraError(f"translator: cannot read the sources: {e}")
+    if not os.path.exists(GEN_SIMBODIES) or open(GEN_SIMBODIES).read() != src:
+        with open(GEN_SIMBODIES, "w") as fh:
+            fh.write(src)
 
 SIMFILE = "simulation/simulation.py"
 
@@ -1061,4 +1092,4 @@ def classify(case, impl):
 def extra_coverage(cases, impls, models):
     fp = sum(len(i.get("faults", [])) for i in impls if isinstance(i, dict))
     fr = sum(i.get("n_faults", 0) for i in impls if isinstance(i, dict))
-    return dict(fault_runs_model_compared=fp, fault_runs_oracle_only=fr)
+    return dict(fault_runs_model_compared=fp, fault_runs_oracle_only=fr, translator=TRANSLATOR["note"])
